@@ -88,12 +88,19 @@ func ExLookupFirstHTTPHandler(
 }
 
 // MatchServeMuxPattern matches a LookupHTTPMethod against at ServeMux.
+// Returns nil, "" if no pattern matches.
 func MatchServeMuxPattern(mux *http.ServeMux, dir LookupHTTPHandler) (handler http.Handler, pattern string) {
 	method := dir.LookupHTTPHandlerMethod()
 	if method == "" {
 		method = "OPTIONS"
 	}
-	return mux.Handler(&http.Request{Method: method, URL: dir.LookupHTTPHandlerURL()})
+	handler, pattern = mux.Handler(&http.Request{Method: method, URL: dir.LookupHTTPHandlerURL()})
+	if pattern == "" {
+		// ServeMux returns its not-found / method-not-allowed handler with an
+		// empty pattern when nothing matches.
+		return nil, ""
+	}
+	return handler, pattern
 }
 
 // Validate validates the directive.
